@@ -4,9 +4,11 @@ import (
 	"fmt"
 	"os"
 	"sort"
+	"strconv"
 
 	"verif/checks"
 	"verif/drv"
+	"verif/eng"
 	"verif/ev"
 )
 
@@ -33,6 +35,13 @@ func main() {
 		for _, id := range ids {
 			fmt.Println(id)
 		}
+	case "crashworker":
+		// crashworker <backend> <dir> <history.json> <kill-at>
+		if len(os.Args) < 6 {
+			usage()
+		}
+		k, _ := strconv.Atoi(os.Args[5])
+		os.Exit(eng.CrashWorker(os.Args[2], os.Args[3], os.Args[4], k))
 	case "check":
 		if len(os.Args) < 3 {
 			usage()
